@@ -119,9 +119,12 @@ pub(crate) enum Wait {
   Sleep(u64),
   Join(usize),
   Idle { time: bool },
+  /// `thread::park` (with an optional deadline on the virtual clock)
+  Park(Option<u64>),
 }
 
 struct Th {
+  park_token: bool,
   timed_out: bool,
   name: String,
   lib: bool,
@@ -179,6 +182,7 @@ pub struct Exec {
   st: StdMutex<State>,
   done_cv: StdCondvar,
   pub(crate) hash_seed: u64,
+  pub(crate) serial: u64,
 }
 
 #[derive(Clone)]
@@ -251,6 +255,7 @@ impl State {
       Wait::Sleep(t) => self.clock >= *t,
       Wait::Join(t) => self.threads[*t].finished,
       Wait::Idle { .. } => false,
+      Wait::Park(dl) => th.park_token || dl.map_or(false, |d| self.clock >= d),
     }
   }
 
@@ -297,6 +302,7 @@ impl State {
       Wait::Sleep(t) => format!("Sleep(until {})", t),
       Wait::Join(t) => format!("Join({})", self.threads[t].name),
       Wait::Idle { time } => format!("Idle(time={})", time),
+      Wait::Park(dl) => format!("Park({:?})", dl),
     }
   }
 
@@ -379,6 +385,9 @@ impl State {
           if let Wait::CondTimed(_, _, t) = th.wait {
             earliest = Some(earliest.map_or(t, |e: u64| e.min(t)));
           }
+          if let Wait::Park(Some(t)) = th.wait {
+            earliest = Some(earliest.map_or(t, |e: u64| e.min(t)));
+          }
         }
       }
       if let Some(t) = earliest {
@@ -448,7 +457,7 @@ impl State {
       if !th.finished {
         any_unfinished = true;
         match th.wait {
-          Wait::Cond(_, _) | Wait::CondTimed(_, _, _) => {}
+          Wait::Cond(_, _) | Wait::CondTimed(_, _, _) | Wait::Park(_) => {}
           _ => any_lock = true,
         }
       }
@@ -887,6 +896,7 @@ pub(crate) fn spawn_in(ctx: &Ctx, name: Option<String>, lib: bool, body: Box<dyn
       name: nm,
       lib,
       timed_out: false,
+      park_token: false,
       wait: Wait::Run,
       finished: false,
       cv: Arc::new(StdCondvar::new()),
@@ -916,6 +926,7 @@ where
         name: "main".into(),
         lib: false,
         timed_out: false,
+        park_token: false,
         wait: Wait::Run,
         finished: false,
         cv: Arc::new(StdCondvar::new()),
@@ -964,6 +975,10 @@ where
     }),
     done_cv: StdCondvar::new(),
     hash_seed: cfg.schedule.hash_seed,
+    serial: {
+      static SERIAL: std::sync::atomic::AtomicU64 = std::sync::atomic::AtomicU64::new(1);
+      SERIAL.fetch_add(1, std::sync::atomic::Ordering::Relaxed)
+    },
   });
   // thread 0 runs on the calling OS thread (no thread creation for sequential cases)
   {
@@ -1088,6 +1103,49 @@ pub fn now() -> u64 {
 
 pub fn yield_point() {
   let _ = sched_point(Wait::Run);
+}
+
+/// `thread::park` / `park_timeout` of the calling thread
+pub fn park(timeout_ns: Option<u64>) {
+  if let Some(ctx) = current() {
+    let dl = {
+      let mut st = lock_state(&ctx.exec);
+      if st.threads[ctx.tid].park_token {
+        st.threads[ctx.tid].park_token = false;
+        None
+      } else {
+        Some(timeout_ns.map(|ns| st.clock + ns))
+      }
+    };
+    match dl {
+      None => yield_point(),
+      Some(dl) => {
+        let _ = sched_point(Wait::Park(dl));
+        lock_state(&ctx.exec).threads[ctx.tid].park_token = false;
+      }
+    }
+  }
+}
+
+/// `Thread::unpark` of thread `tid` of the running execution
+pub fn unpark(tid: usize) {
+  if let Some(ctx) = current() {
+    {
+      let mut st = lock_state(&ctx.exec);
+      if tid < st.threads.len() {
+        st.threads[tid].park_token = true;
+      }
+    }
+    yield_point();
+  }
+}
+
+/// a number that identifies the running execution (0 outside)
+pub fn exec_serial() -> u64 {
+  match current() {
+    Some(ctx) => ctx.exec.serial,
+    None => 0,
+  }
 }
 
 /// an explicit yield: by default the turn goes to the next enabled thread
